@@ -69,6 +69,16 @@ EXT = {
         "logging.critical", "logging.log", "warnings.warn", "time.time", "time.monotonic", "time.perf_counter",
     )},
     "object.__new__": ("pure", ()),  # a bare instance: no constructor body runs (VAL3 reports the bypass)
+    # idiom vocabulary: tabled so that calls resolve (no effects on the arguments beyond iterating them); the rule
+    # tables do not interpret them - core demotes table verdicts inside functions that use them (known_funcs.KNOWN_EXT)
+    "itertools.islice": ("pure", ()), "itertools.repeat": ("pure", ()), "itertools.chain.from_iterable": ("pure", ()),
+    "itertools.takewhile": ("pure", ()), "itertools.dropwhile": ("pure", ()), "itertools.accumulate": ("pure", ()),
+    "itertools.groupby": ("pure", ()), "itertools.starmap": ("pure", ()), "itertools.product": ("pure", ()),
+    "operator.itemgetter": ("pure", ()), "operator.attrgetter": ("pure", ()), "operator.mul": ("pure", ()), "operator.add": ("pure", ()),
+    "operator.eq": ("pure", ()), "operator.ne": ("pure", ()), "operator.and_": ("pure", ()), "operator.or_": ("pure", ()), "operator.xor": ("pure", ()),
+    "operator.lshift": ("pure", ()), "operator.rshift": ("pure", ()), "operator.sub": ("pure", ()), "operator.not_": ("pure", ()),
+    "functools.reduce": ("pure", ()), "collections.deque": ("pure", ()), "collections.Counter": ("pure", ()), "collections.OrderedDict": ("pure", ()),
+    "math.log2": ("pure", ("ValueError",)), "bisect.bisect_left": ("pure", ()), "bisect.bisect_right": ("pure", ()), "bisect.bisect": ("pure", ()),
     "copy.copy": ("pure", ()),  # a new object of the same class whose attributes are the *same* objects (effects.loc aliases them)
     "super": ("pure", ()),
     "super.__init__": ("pure", ()),  # Exception.__init__: stores args on the new object
